@@ -12,13 +12,21 @@ MeanMatches(m, w, vv) ==
    /\ Len(m) = Len(u)
    /\ \A k \in 1..Len(u) : LET S == {j \in 1..Len(vv) : vv[j] = u[k]} IN
          m[k][1] * Cardinality(S) = SumSeq([j \in 1..Len(vv) |-> IF j \in S THEN w[j] ELSE 0]) * m[k][2]
-Check1(r) ==
+\* the model's per-cluster / per-template spike queries and per-cluster template histograms
+CheckModel(r) ==
+  /\ Clause(r.id, "get_cluster_spikes", \A e \in SeqSet(r.cluster_spikes) : IsInClusters(e[2], r.sc, <<e[1]>>))
+  /\ Clause(r.id, "get_template_spikes", \A e \in SeqSet(r.template_spikes) : IsInClusters(e[2], r.st, <<e[1]>>))
+  /\ Clause(r.id, "get_template_counts", \A e \in SeqSet(r.template_counts) :
+               /\ Len(e[2]) = r.nt
+               /\ \A t \in 1..r.nt : e[2][t] = Cardinality({j \in 1..Len(r.sc) : r.sc[j] = e[1] /\ r.st[j] = t - 1}))
+CheckUtils(r) ==
   /\ Clause(r.id, "IsGroups", IsGroups(r.groups, r.v, r.ids))
   /\ Clause(r.id, "IsUnique", IsUnique(r.unique, r.v))
   /\ Clause(r.id, "IsInClusters", IsInClusters(r.inClusters, r.v, r.req))
   /\ Clause(r.id, "IsFlatten", IsFlatten(r.flat, r.groups))
   /\ Clause(r.id, "IsIndexOf", IsIndexOf(r.indexOf, r.vneg, r.lookup))
   /\ Clause(r.id, "IsMean", MeanMatches(r.mean, r.w, r.v))
+Check1(r) == IF r.kind = "model" THEN CheckModel(r) ELSE CheckUtils(r)
 TNext == /\ i <= Len(Trace) /\ Check1(Trace[i]) /\ TLCSet(2, i) /\ i' = i + 1 /\ UNCHANGED vars
 TSpec == TInit /\ [][TNext]_<<vars, i>>
 Accepted == Verdict(TLCGet(2)) /\ TLCGet(2) = Len(Trace)
